@@ -53,6 +53,23 @@ def random_graph(rnd):
     return {"n": n, "e": sorted(list(e) for e in edges)}
 
 
+def big_graph(n, kind, rnd):
+    """graphs around the word sizes 64 / 128 (bit-set implementations): a chain, or a ladder (spine, skip edges, back edges),
+    optionally renumbered"""
+    edges = set((i, i + 1) for i in range(n - 1))
+    if kind != "chain":
+        for i in range(0, n - 3, 3):
+            edges.add((i, i + 3))
+        for i in range(5, n, 7):
+            edges.add((i, i - 4))
+    if kind == "shuffled":
+        perm = list(range(1, n))
+        rnd.shuffle(perm)
+        perm = [0] + perm
+        edges = set((perm[a], perm[b]) for a, b in edges if perm[b] != 0)
+    return {"n": n, "e": sorted(list(e) for e in edges)}
+
+
 def run(tier):
     v = Verdict("C15", tier, "model_checking")
     maxn = 4 if tier == "quick" else 5
@@ -82,6 +99,9 @@ def run(tier):
     rnd = random.Random(vlib.seed())
     nB = 3000 if tier == "quick" else 30000
     graphs = [random_graph(rnd) for _ in range(nB)]
+    for n in ((63, 64, 65, 128) if tier == "quick" else (63, 64, 65, 127, 128, 129, 192)):
+        for kind in ("chain", "ladder", "shuffled"):
+            graphs.append(big_graph(n, kind, rnd))
     rin, rout = os.path.join(wd, "rand.in"), os.path.join(wd, "rand.out")
     write_ndjson(rin, graphs)
     vh(["dom", rin, rout])
@@ -112,7 +132,7 @@ def run(tier):
         "evaluations": nA + nB, "distinct_nontrivial": nontriv,
         "rule": "A: every digraph on <= %d nodes with entry 0 without predecessors and all nodes reachable (self loops and "
                 "irreducible shapes included), TLC-enumerated with Ref's Dom/idom/children/DF, replayed on DominatorTree::new "
-                "(%d graphs; non-trivial = some dominance frontier is non-empty); B: %d random graphs with 6..12 nodes, real "
+                "(%d graphs; non-trivial = some dominance frontier is non-empty); B: %d random graphs with 6..12 nodes and chains / ladders / renumbered ladders of 63, 64, 65, 128 (thorough: also 127, 129, 192) nodes, real "
                 "results validated by TLC against Ref" % (maxn, nA, nB),
         "samples": samples + [{"random": graphs[0]}],
         "l1": {"module": "Dominators", "invariants": ["L1", "RefSane"], "distinct_states": l1.distinct, "violated": l1.violated},
